@@ -8,6 +8,7 @@ import (
 	"errors"
 	"fmt"
 	"os"
+	"strconv"
 	"strings"
 	"time"
 
@@ -133,7 +134,7 @@ func dagEntries(h *harness) []*entry {
 			n := 0
 			for _, d := range st.Diagnostics() {
 				if d.Name() == "transaction_count" {
-					n, _ = d.Result().(int)
+					n, _ = strconv.Atoi(fmt.Sprint(d.Result()))
 				}
 			}
 			return fmt.Sprintf("xor=%s lc=%d n=%v", x, c, n)
